@@ -56,11 +56,22 @@ DegenerateRow(mesh, row) ==
 Excluded(r, k)   == DegenerateRow(r.mesh, r.edges[k]) \/ (Has(r, "snap") /\ r.snap[k])
 HasDegenerate(r) == \E k \in 1..Len(r.edges) : Excluded(r, k)
 
-Match(got, exp, exact) ==
+\* got = <<p, q, flags>> or <<p, q, flags, k>>: the value p / q * 2^k;  exp = <<n, d>> at binary exponent e: the
+\* value n / d * 2^e.  Equality by integer cross-multiplication with the power of two on the proper side.
+RECURSIVE P2(_)
+P2(n) == IF n = 0 THEN 1 ELSE 2 * P2(n - 1)
+MatchS(got, exp, e, exact) ==
+    LET k == IF Len(got) = 4 THEN got[4] ELSE 0 IN
     /\ got[2] > 0
-    /\ got[1] * exp[2] = exp[1] * got[2]
     /\ Bit(got[3], 1)
     /\ (exact => Bit(got[3], 0))
+    /\ IF exp[1] = 0 \/ got[1] = 0 THEN exp[1] = 0 /\ got[1] = 0
+       ELSE /\ k - e <= 24 /\ e - k <= 24
+            /\ IF k >= e THEN got[1] * exp[2] * P2(k - e) = exp[1] * got[2]
+                         ELSE got[1] * exp[2] = exp[1] * got[2] * P2(e - k)
+Match(got, exp, exact) == MatchS(got, exp, 0, exact)
+\* binary exponent of a canonical data row (0 if the record is not scaled)
+SExp(r, row) == IF Has(r, "sexp") THEN r.sexp[row] ELSE 0
 
 \* layout of the record: the grid dimension sits at 0-based position r.pos among the dims, the other dims have
 \* the sizes r.lead / names r.lead_dims; the edge dimension must take that position in the result
@@ -80,7 +91,7 @@ ValuesOK(r, e, rows, Exp(_, _), exact) ==
        /\ Len(e.flat) = Len(rows) * n
        /\ \A row \in 1..Len(rows) : \A k \in 1..n :
             LET o == FlatOffset(l, n, row - 1, k - 1) + 1
-            IN o <= Len(e.flat) => Match(e.flat[o], Exp(row, k), exact)
+            IN o <= Len(e.flat) => MatchS(e.flat[o], Exp(row, k), SExp(r, row), exact)
 \* a per-entry boolean of the result (exact zero) at canonical row / edge
 FlagAt(r, zf, row, k) == LET o == FlatOffset(Lay(r), Len(r.edges), row - 1, k - 1) + 1
                          IN o <= Len(zf) /\ zf[o]
@@ -105,6 +116,7 @@ Clauses(r) ==
       FaceDistanceZeroOnBoundary |->
                          Has(r, "fd_zero") => \A k \in 1..Len(E) :
                             Excluded(r, k) \/ (r.fd_zero[k] <=> IsBoundaryRow(m, E[k])),
+      ScaleInSpec    |-> Has(r, "sexp") => \A row \in 1..Len(r.sexp) : r.sexp[row] \in ScaleExps,
       DistanceDims   |-> Has(r, "dist_dims") => \A j \in 1..Len(r.dist_dims) : r.dist_dims[j] = << "n_edge" >>,
       SuppliedNodeDistances |->
                          Has(r, "supplied_dv") =>
